@@ -1,20 +1,27 @@
 /-
-Exact models of three of the hand-written handler pairs of `ear.fileio.adm.xml` (the ones that are
-parameters in `Model/XmlCodec.lean`), over the same abstract XML tree.  Core Lean only.
+Exact models of the hand-written handler pairs of `ear.fileio.adm.xml` (the ones that are parameters in
+`Model/XmlCodec.lean`), over the same abstract XML tree.  Core Lean only.
 
 * `handle_frequency` / `frequency_to_xml`                     (audioChannelFormat `frequency`)
 * `handle_jump_position` / `jump_position_to_xml`             (Objects `jumpPosition`)
 * `parse_speaker_position` / `speaker_position_to_xml`        (DirectSpeakers `position`, incl. bounds and
                                                                screenEdgeLock)
+* `parse_objects_position` / `object_position_to_xml`         (Objects `position`)
+* `handle_gain_element_v1/v2`, `gain_to_xml`, `optional_gain_to_xml`, `handle_gain_attribute_v1/v2`,
+  `gain_attribute_to_xml`, `handle_channel_lock`, `handle_divergence`, `parse_zone` / zoneExclusion
+* `handle_position_offset` / `position_offset_to_xml`         (audioObject / alternativeValueSet `positionOffset`)
+* `handle_centre_position`, `handle_screen_width`, `handle_screen_type` and their `to_xml`
+                                                              (audioProgrammeReferenceScreen, polar and Cartesian)
+* `handle_gainInteractionRange`, `handle_positionInteractionRange` and their `to_xml` (audioObjectInteraction)
 
 Floats are on the printable grid: an `Int` `k` stands for `k / 100000`, printed by `dumpsNum`
 (`"{:.5f}".format`) and read by `loadsNum` (`float()` on exactly that spelling; other spellings that
 Python's `float()` / `Fraction()` accept are outside the model).  `interpolationLength` is a `Fraction`
 printed by `"{:07.5f}".format(float(t))` — for `t ≥ 0` on the grid the same text as `dumpsNum`.
 
-`parse_speaker_position` visits the `position` children namespace by namespace (`xpath` helper); the model
-takes the `position` elements in the order they are visited (document order when they share a namespace,
-as in everything `to_xml` writes).
+The handlers that use the `xpath` helper visit the children namespace by namespace; the models take the elements
+in the order they are visited (`XmlBlocks.xpathChildren`; document order when they share a namespace, as in
+everything `to_xml` writes).
 -/
 import Earverif.Model.XmlLeaf
 
